@@ -107,17 +107,29 @@ impl Monitor for C12 {
 
         // ---------------------------------------------------------------- (b) conversions
         let g = ArrGen { scale: *rng.pick(&[3u64, 10, 40]), allow_never: false, allow_prefix: false, allow_composite: true, allow_curve: true, max_jitter_factor: 3 };
+        // one source in ten is an ApproximatedPoisson model (the only model with the trait-default steps_iter;
+        // low rates give sources with number_arrivals(1) = 0)
+        let poisson: Option<(f64, f64)> = if rng.chance(1, 10) { Some((10f64.powf(-3.5 + 2.3 * rng.f64()), *rng.pick(&[0.1f64, 0.01, 0.001]))) } else { None };
         let src = g.any(&mut rng, 1);
         if src.components().is_empty() {
             return;
         }
-        let sj = src.to_json();
+        let sj = match poisson {
+            Some((r, e)) => jobj! {"ApproximatedPoisson" => vec![r, e]},
+            None => src.to_json(),
+        };
+        let build_src = || -> Box<dyn ArrivalBound> {
+            match poisson {
+                Some((r, e)) => Box::new(arrival::ApproximatedPoisson::new(r, e)),
+                None => src.build(),
+            }
+        };
         let conv = rng.range(0, 5);
         let njobs = rng.usize(1, 12);
         let hor = rng.range(1, 8 * g.scale);
         type Built = (String, Box<dyn ArrivalBound>, u64, Json);
         let built: Result<Option<Built>, _> = guard(|| -> Option<Built> {
-            let s = src.build();
+            let s = build_src();
             match conv {
                 0 => {
                     let c = arrival::Curve::from_arrival_bound(&s, njobs);
@@ -134,6 +146,7 @@ impl Monitor for C12 {
                     let c = arrival::ArrivalCurvePrefix::from_arrival_bound_until(&s, Duration::from(hor));
                     Some(("ArrivalCurvePrefix::from_arrival_bound_until".into(), Box::new(c), hor, jobj! {"horizon"=>hor}))
                 }
+                3 if poisson.is_some() => None,
                 3 => match &src {
                     Arr::Periodic { t } => {
                         let c = arrival::Curve::from(arrival::Periodic::new(Duration::from(*t)));
@@ -148,6 +161,11 @@ impl Monitor for C12 {
                 },
                 _ => {
                     // source -> ArrivalCurvePrefix -> Curve ; both hops must dominate the original
+                    if s.number_arrivals(Duration::from(hor)) == 0 {
+                        // nothing arrives within the horizon: the recorded prefix has no steps and the
+                        // delta-min vector would be empty (rejected by Curve::new's documented assertion)
+                        return None;
+                    }
                     let p = arrival::ArrivalCurvePrefix::from_arrival_bound_until(&s, Duration::from(hor));
                     let c = arrival::Curve::from(&p);
                     Some(("Curve::from(&ArrivalCurvePrefix)".into(), Box::new(c), hor, jobj! {"horizon"=>hor}))
@@ -168,8 +186,9 @@ impl Monitor for C12 {
             rep.count("skipped_unbounded_inferred_prefix (last distance 0)", 1);
             return;
         }
-        let upto = (20 * covered.max(1)).min(3000).max(40);
-        let tabs = guard(|| (table(&*src.build(), upto), table(&*derived, upto)));
+        // (the Poisson approximation needs O(n^2) work per query: keep its tables short)
+        let upto = if poisson.is_some() { (3 * covered.max(1)).min(400).max(40) } else { (20 * covered.max(1)).min(3000).max(40) };
+        let tabs = guard(|| (table(&*build_src(), upto), table(&*derived, upto)));
         let (fs, fd) = match tabs {
             Err(c) => {
                 rep.violation(format!("C12 conv={} kind={}-in-number_arrivals class={}", name, c.kind, c.class()), jobj! {"source"=>sj.clone(),"params"=>params.clone(),"caught"=>c.to_json()});
@@ -193,6 +212,12 @@ impl Monitor for C12 {
             }
         }
         for x in 0..(covered.min(upto) as usize) {
+            // a delta-min vector cannot say "no event in a non-empty window": where the source claims 0
+            // arrivals for delta >= 1 (low-rate Poisson approximations only) a Curve necessarily says 1
+            if x >= 1 && fs[x] == 0 && name.starts_with("Curve") {
+                rep.count("exactness_points_skipped_source_zero_for_nonempty_window", 1);
+                continue;
+            }
             rep.count("exactness_points_checked", 1);
             if fd[x] != fs[x] {
                 rep.violation(
@@ -202,8 +227,8 @@ impl Monitor for C12 {
                 break;
             }
         }
-        if src.max_jitter() > 0 || !src.is_leaf() || matches!(src, Arr::Curve { .. } | Arr::Extrap { .. }) {
-            let mut w = vec![42, conv, njobs as u64, hor];
+        if poisson.is_some() || src.max_jitter() > 0 || !src.is_leaf() || matches!(src, Arr::Curve { .. } | Arr::Extrap { .. }) {
+            let mut w = vec![42, conv, njobs as u64, hor, poisson.map(|p| p.0.to_bits()).unwrap_or(0)];
             src.words(&mut w);
             rep.nontrivial_key(&w);
         }
@@ -211,7 +236,7 @@ impl Monitor for C12 {
         // ---------------------------------------------------------------- (c) duality
         let nmax = (fs[upto as usize] as usize).min(60);
         let items = guard(|| {
-            let s = src.build();
+            let s = build_src();
             arrival::delta_min_iter(&s).take(nmax + 1).map(|(n, x)| (n, u64::from(x))).collect::<Vec<_>>()
         });
         match items {
@@ -224,6 +249,7 @@ impl Monitor for C12 {
                         want.push((n, x));
                     }
                 }
+                want.truncate(nmax + 1);
                 rep.count("delta_min_items_compared", want.len() as u64);
                 if items.len() < want.len() || items[..want.len()] != want[..] {
                     let k = (0..want.len()).find(|k| items.get(*k) != Some(&want[*k])).unwrap_or(0);
